@@ -34,7 +34,8 @@ def render_elem(e):
     if q is None:
         wire = [v, ' ' + v, v + ' '][ws]
         return wire, v
-    wire = [v + ';q=' + q, v + '; q=' + q, ' ' + v + ' ;q = ' + q + ' '][ws] + ext
+    # parameter names are case-insensitive (RFC 7231 3.1.1.1): 'Q=' is the same weight
+    wire = [v + ';q=' + q, v + '; q=' + q, ' ' + v + ' ;q = ' + q + ' ', v + ';Q=' + q][ws] + ext
     return wire, v + ';q=' + q + ext
 
 
@@ -187,7 +188,7 @@ class C17(core.Check):
                 q = None
             else:
                 q = rng.choice(QTEXTS[rng.choice([0, 0, 0, 1000, 500, 500, 1, 999, 800, 300, 100])])
-            e = {'v': v, 'q': q, 'ws': rng.choice([0, 0, 0, 1, 2])}
+            e = {'v': v, 'q': q, 'ws': rng.choice([0, 0, 0, 1, 2, 3] if q is not None else [0, 0, 0, 1, 2])}
             if q is not None and rng.random() < .08:
                 e['ext'] = rng.choice([';ext=1', ';x=y'])
             out.append(e)
